@@ -14,6 +14,7 @@ import os
 import re
 from .. import core
 from . import _c17_table as table
+from . import _c17_pty as pty
 
 LEVEL = "model_checking"
 FIELDS = (("n", "n"), ("m", "tracked"), ("sel", "sel"), ("quit", "quit"), ("search", "search"),
@@ -103,7 +104,8 @@ def check(run, scen=None):
     dyn_pool, dyn_future = None, None
     if not replaying:
         core.build_jet()
-        dyn_pool = cf.ThreadPoolExecutor(max_workers=2)
+        dyn_pool = cf.ThreadPoolExecutor(max_workers=3)
+        pty_future = dyn_pool.submit(pty.check, run)               # terminal bytes -> tui::EventHandler -> update()
         dyn_future = dyn_pool.submit(table.check, run, thorough)   # keys + data changes + frames (Table.tla)
         apa_future = dyn_pool.submit(table.apalache, run)          # informative: every table size
     if not replaying:
@@ -214,6 +216,8 @@ def check(run, scen=None):
     if m is not None:
         dyn = dyn_future.result()
         run.cov["apalache"] = apa_future.result()
+        run.cov["terminal_segment"] = pty_future.result()
+        run.cov["traces_validated_against_impl"] += run.cov["terminal_segment"]["cases"]
         dyn_pool.shutdown()
         run.assumptions += dyn.pop("assumptions")
         run.cov["samples"] += dyn.pop("samples")
@@ -236,6 +240,8 @@ def check(run, scen=None):
         "with 30..100 characters of one kind (ASCII, 2-byte, 3-byte) followed by every event; a query is abstracted to the "
         "UTF-8 length of its characters (1: 'x' and the function keys, 2: U+00E9, 3: U+65E5)",
         "tracked aircraft are empty state vectors; m - n in {0,1,2} (thorough: also m = 0)",
+        "terminal segment: pseudo-terminal in raw mode, crossterm's parser and the real tui::EventHandler; resize "
+        "events and the timing of the 250 ms tick are not exercised; without a pseudo-terminal the segment is skipped",
         "the driver projects Jet1090 to (items.len, state_vectors.len, selected, should_quit, is_search_mode, "
         "query, sort_key, sort_asc, width); scroll_state is not observed",
     ]
@@ -245,6 +251,11 @@ def replay(run, path):
     with open(path) as f:
         doc = json.load(f)
     cases = doc.get("cases", [])
+    if cases and cases[0].get("part") == "pty":
+        res = pty.check(run, [{k: c[k] for k in ("n", "m", "prefix", "key", "form", "judge")} for c in cases])
+        run.cov.update({"traces_validated_against_impl": len(cases), "exhaustive": False,
+                        "samples": [cases[0]["key"]], "terminal_segment": res})
+        return run.finish()
     if cases and cases[0].get("part") == "table":
         stats = table.replay(run, cases)
         run.cov.update({"traces_validated_against_impl": len(cases), "exhaustive": False,
